@@ -9,6 +9,16 @@ structure S where
   sub : List ((Loc × Fam) × Option Pfx) := []
   fake : List Nat := []
   st : St := St.empty
+  /-- capacities and recency lists (most recent first) of the two LRU caches; capacity 0 = unbounded -/
+  capN : Nat := 0
+  capE : Nat := 0
+  lruN : List NKey := []
+  lruE : List EKey := []
+  gspecial : List Nat := []
+  gtop : List (Nat × Nat) := []
+  gistop : List Nat := []
+  gasn : List (LKey × Pfx) := []
+  gctry : List (Nat × Pfx) := []
 
 def fam! (s : String) : Fam := if s == "6" then .v6 else .v4
 
@@ -19,6 +29,14 @@ def S.env (s : S) : Env :=
       | some e => e.2
       | none => some (zeroPfx f)
     fake := fun h => s.fake.contains h }
+
+/-- The `geoip.File` database described by the `g…` ops. -/
+def S.db (s : S) : GeoDB :=
+  { special := fun c => s.gspecial.contains c
+    topASN := fun c => (s.gtop.find? (fun e => e.1 == c)).map (·.2)
+    isTop := fun a => s.gistop.contains a
+    asnNets := s.gasn
+    ctryNets := s.gctry }
 
 def parseOpt (t : String) : Opt :=
   match t.splitOn ":" with
@@ -59,8 +77,56 @@ def showOut (o : Out) : String :=
   let ecs := if o.kind == .ok then showECS (ecsOpts o.rextra) else "-"
   s!"{kind} up={up} tok={tok} ecs={ecs}"
 
+def parseReq : List String → Option (Req × Up)
+  | rf :: ra :: h :: qt :: qc :: nrr :: rest =>
+    let rr := takeRRs (nat! nrr) rest
+    match rr.2 with
+    | uk :: ca :: tok :: hasopt :: nopt :: rest' =>
+      let uo := takeOpts (nat! nopt) rest'
+      some (⟨fam! rf, nat! ra, nat! h, nat! qt, nat! qc, rr.1, none, none⟩,
+        ⟨uk != "0", bool! ca, nat! tok, if bool! hasopt then [⟨false, uo.1⟩] else []⟩)
+    | _ => none
+  | _ => none
+
+/-- `gcache` LRU bookkeeping around one `serve`: a hit moves its key to the front; a store moves
+its key to the front or, if the key is new and the cache is full, evicts the least recently used
+key first (a `drop` event of the model). -/
+def touch {K : Type} [DecidableEq K] (l : List K) (k : K) : List K := k :: l.filter (· != k)
+
+def lruAfter (s : S) (r : Req) (res : St × Out) : S :=
+  let env := s.env
+  match mapped env r with
+  | none => { s with st := res.1 }
+  | some sub =>
+    let kN := nkey r sub
+    let kE := ekey r sub
+    let kN0 := nkey r (zeroPfx (ecsFamOf r))
+    match res.2.src with
+    | .noecsCache => { s with st := res.1, lruN := touch s.lruN kN }
+    | .ecsCache => { s with st := res.1, lruE := touch s.lruE kE }
+    | _ =>
+      if res.1.ecs kE != s.st.ecs kE then
+        -- stored in the ECS-aware cache
+        if s.lruE.contains kE || s.capE == 0 || s.lruE.length < s.capE then
+          { s with st := res.1, lruE := touch s.lruE kE }
+        else
+          match s.lruE.getLast? with
+          | some old =>
+            { s with st := { res.1 with ecs := putE res.1.ecs old none }, lruE := kE :: s.lruE.dropLast }
+          | none => { s with st := res.1, lruE := [kE] }
+      else if res.1.noecs kN0 != s.st.noecs kN0 then
+        if s.lruN.contains kN0 || s.capN == 0 || s.lruN.length < s.capN then
+          { s with st := res.1, lruN := touch s.lruN kN0 }
+        else
+          match s.lruN.getLast? with
+          | some old =>
+            { s with st := { res.1 with noecs := putN res.1.noecs old none }, lruN := kN0 :: s.lruN.dropLast }
+          | none => { s with st := res.1, lruN := [kN0] }
+      else { s with st := res.1 }
+
 def step (s : S) : List String → S × String
   | ["reset"] => ({}, "ok")
+  | ["cap", n, e] => ({ s with capN := nat! n, capE := nat! e }, "ok")
   | ["fake", h] => ({ s with fake := nat! h :: s.fake }, "ok")
   | ["data", f, a, c, sd, asn] =>
     ({ s with data := ((fam! f, nat! a), ⟨nat! c, nat! sd, nat! asn⟩) :: s.data }, "ok")
@@ -74,17 +140,30 @@ def step (s : S) : List String → S × String
     let el : Option Loc := if bool! hasEl then some ⟨nat! c', nat! sd', nat! asn'⟩ else none
     let l := locFromReq cl el
     (s, s!"{l.ctry} {l.subdiv} {l.asn}")
+  | ["gspecial", c] => ({ s with gspecial := nat! c :: s.gspecial }, "ok")
+  | ["gtop", c, a] => ({ s with gtop := s.gtop ++ [(nat! c, nat! a)] }, "ok")
+  | ["gistop", a] => ({ s with gistop := nat! a :: s.gistop }, "ok")
+  | ["gasn", c, sd, a, f, pa, pb] =>
+    ({ s with gasn := s.gasn ++ [(⟨nat! c, nat! sd, nat! a⟩, ⟨fam! f, nat! pa, nat! pb⟩)] }, "ok")
+  | ["gctry", c, f, pa, pb] => ({ s with gctry := s.gctry ++ [(nat! c, ⟨fam! f, nat! pa, nat! pb⟩)] }, "ok")
+  | ["gsub", c, sd, a, f] =>
+    let p := s.db.subnetByLocation ⟨nat! c, nat! sd, nat! a⟩ (fam! f)
+    (s, s!"{if p.fam == .v4 then 4 else 6} {p.addr} {p.bits}")
   | ["dep", scope, h] => (s, showB (respIsECSDependent s.env (nat! scope) (nat! h)))
-  | "req" :: rf :: ra :: h :: qt :: qc :: nrr :: rest =>
-    let rr := takeRRs (nat! nrr) rest
-    match rr.2 with
-    | uk :: ca :: tok :: hasopt :: nopt :: rest' =>
-      let uo := takeOpts (nat! nopt) rest'
-      let r : Req := ⟨fam! rf, nat! ra, nat! h, nat! qt, nat! qc, rr.1⟩
-      let u : Up := ⟨uk != "0", bool! ca, nat! tok, if bool! hasopt then [⟨false, uo.1⟩] else []⟩
-      let res := serve s.env s.st r u
+  | "req" :: rest =>
+    match parseReq rest with
+    | some ru =>
+      let r := locate s.env ru.1
+      let res := serve s.env s.st r ru.2
+      (lruAfter s r res, showOut res.2)
+    | none => (s, "bad-op")
+  -- completion of a request that missed the caches at some earlier moment (overlapping requests)
+  | "fin" :: rest =>
+    match parseReq rest with
+    | some ru =>
+      let res := finish s.env s.st (locate s.env ru.1) ru.2
       ({ s with st := res.1 }, showOut res.2)
-    | _ => (s, "bad-op")
+    | none => (s, "bad-op")
   | _ => (s, "bad-op")
 
 def main : IO Unit := loop step {}
